@@ -61,8 +61,8 @@ void hx_gen(Rng &rng, const std::string &tier)
 {
     bool th = tier == "thorough";
     // minimised past findings / boundary cases first
-    emit("ev 113 (ASec 2)", "fixed-asec");
-    emit("ev 113 (ACsc 2)", "fixed-acsc");
+    emit("ev 113 (ASec 3)", "fixed-asec");
+    emit("ev 113 (ACsc 3)", "fixed-acsc");
     emit("ev 64 (ASec -3/2)", "fixed-asec");
     emit("ev 200 (ATan2 1 2)", "fixed-atan2");
     emit("ev 113 (^ 2 1/2)", "fixed-pow");
@@ -187,8 +187,9 @@ static std::string run_ev(const std::vector<std::string> &w, const std::string &
     } catch (Unsupported &) {
         stat("no_reference");
     }
+    // special-function operand values for the model run (also when eval_mpfr throws: the model must get as far)
+    collect_special(*e, [](const Basic &b) { return eval_double(b); }, spec);
     if (ok) {
-        collect_special(*e, [](const Basic &b) { return eval_double(b); }, spec);
         double got = mpfr_get_d(r.get_mpfr_t(), MPFR_RNDN);
         // ---- oracle 1: vs the independent long double reference
         if (have_ref) {
